@@ -133,6 +133,57 @@ func (g *vfGen) genC19() {
 		g.emit(vfOp("walk", z, 0))
 		g.emit(vfOp("zip", z))
 	}
+	// directed: a short entry (26..44 bytes between the end of its header and the next signature,
+	// the lower bound of the statement) at position 2..5, directly followed by the only marker
+	exact := func(n int) []byte {
+		b := make([]byte, n)
+		for i := range b {
+			b[i] = byte('a' + g.rng.Intn(26))
+		}
+		return b
+	}
+	for total := 26; total <= 44; total++ {
+		for pos := 1; pos <= 4; pos++ {
+			fam := []string{"docx", "xlsx", "pptx"}[(total+pos)%3]
+			es := []vfEntry{mk("[Content_Types].xml")}
+			for len(es) < pos {
+				es = append(es, mk(book[g.rng.Intn(len(book))]))
+			}
+			name := "_rels/.rels"
+			if total%2 == 0 {
+				name = "a/b.x"
+			}
+			if total-len(name) >= 0 {
+				es = append(es, vfEntry{name: name, body: exact(total - len(name)), stored: true, nodesc: true})
+				es = append(es, mk(markers[fam][0]), mk(other[g.rng.Intn(len(other))]))
+				emit(es)
+			}
+			if total-len(name)-16 >= 0 {
+				// the same span made of name + body + 16-byte data descriptor
+				es2 := []vfEntry{mk("[Content_Types].xml")}
+				for len(es2) < pos {
+					es2 = append(es2, mk(book[g.rng.Intn(len(book))]))
+				}
+				es2 = append(es2, vfEntry{name: name, body: exact(total - len(name) - 16), stored: true, nodesc: false})
+				es2 = append(es2, mk(markers[fam][0]))
+				emit(es2)
+			}
+		}
+	}
+	// directed: few entries, no marker name, but marker text at every offset residue in a stored body
+	for _, txt := range []string{"word/x", "xl/y", "ppt/zz", "META-INF/MANIFEST.MFq", "classes.dexq"} {
+		for k := 1; k <= 5; k++ {
+			var es []vfEntry
+			for j := 0; j < k-1; j++ {
+				es = append(es, mk(other[g.rng.Intn(len(other))]))
+			}
+			if k%2 == 0 {
+				es = append([]vfEntry{mk("[Content_Types].xml")}, es...)
+			}
+			es = append(es, vfEntry{name: "_rels/.rels", body: []byte(strings.Repeat(txt, 70)), stored: true, nodesc: k%3 == 0})
+			emit(es)
+		}
+	}
 	n := g.pick(250, 6000)
 	for i := 0; i < n; i++ {
 		switch g.rng.Intn(7) {
